@@ -298,6 +298,8 @@ var _ *pb.SharedGroupProposal
 //@ ghost leaderTop int = 0
 //@ ghost ccs int = 0
 //@ at call WAL.Save
+//@ scope rd
+//@ requires [C03 C05 saves-what-this-ready-carries: hard state, entries and snapshot of the Ready go to the log as they are (raft/doc.go: "Write Entries, HardState and Snapshot to persistent storage"); a commit-only hard state is part of it - dropping it lets a later snapshot move the first index past the stored commit, and the node cannot restart] $arg0 == this.wal && $arg1 == rd.HardState && $arg2 == rd.Entries && $arg3 == rd.Snapshot
 //@ set saved = ite(isnil($ret0), 1, 0)
 //@ end
 //@ at call RaftGroup).isLeader
